@@ -19,11 +19,13 @@ def opOfJson (j : Json) : Except String Op := do
   | "remove_nodes" => return .removeNodes (← natList a[1]!)
   | "remove_conn" => return .removeConnections (← natList a[1]!)
   | "read" => return .read
+  | "remove_successors" => return .removeSuccessors (← a[1]!.getNat?)
   | s => throw s!"bad-op {s}"
 
 def errName : Err → String
   | .duplicate => "ValueError" | .badEdge => "Exception" | .notPresent => "Exception"
   | .notReady => "Exception" | .cycle => "ValueError" | .notWip => "ValueError"
+  | .reused => "model:name-reused" | .notClosed => "model:traversal-incomplete"
 
 def natsJ (l : List Nat) : Json := Json.arr (l.map (fun n => toJson n)).toArray
 
@@ -41,6 +43,7 @@ def apply (g : G) : Op → String × G
   | .removeNodes ns => let r := removeNodes g ns; (outcome r.1, r.2)
   | .removeConnections ns => let r := removeConnections g ns; (outcome r.1, r.2)
   | .read => let r := readSorted g; (outcome r.1, r.2)
+  | .removeSuccessors n => let r := removeSuccessors g n; (outcome r.1, r.2)
 
 /-- run until the first raising call (a history is a list of non-raising calls) -/
 def trace : G → List Op → List Json
